@@ -79,11 +79,11 @@ MANIFEST = {
             "execute_opt_command and combined with the audit-log refinement (agg_serialisable: consecutive versions, one command-N per "
             "accepted/rejected command, reads return prefix states); without the lock a 2-thread schedule loses an acknowledged update "
             "(lock_necessary, by kernel evaluation); rejected_only_audit, noop_no_trace, presave_failure_no_trace, failed_write_no_trace; "
-            "history lists every stored command in order with actor for histories without drop_aggregate (history_lists_all_partial) and a "
-            "proved counterexample with drop + re-create (finding F-C07-1, replayed on the code). Tie: sequential lock-step differential "
+            "history lists every stored command of the current entity in order with actor for all histories including drop_aggregate + "
+            "re-create (history_lists_all; counter-model of the pinned tree kept as history_stale_after_drop, F-C07-1 fixed by 04272ff6). Tie: sequential lock-step differential "
             "execution on both back-ends, and concurrent runs replayed on the model in the observed lock order with a well-bracketedness "
             "check of the cfg-gated lock/storage event log.",
     "note": "The lock discipline is proved for the model; that the code brackets the whole call is observed, not proved (sampled schedules). "
-            "Known finding F-C07-1 (history cache not cleared by drop_aggregate) is reported as KNOWN-FINDING.",
+            "F-C07-1 (history cache not cleared by drop_aggregate) was found here and is fixed in /repo (04272ff6); its corpus case guards it.",
     "technique": "Lean 4 proof (interleaving invariant, refinement) + correspondence check (sequential and concurrent)",
 }
